@@ -748,41 +748,47 @@ fn run(inst: &Inst, script: &[Choice], auto: Option<usize>, l: &mut Local) -> Ru
         }
     }
 
-    let s = shared.lock().unwrap();
-    if let Some(b) = &s.bad_script {
-        // a recorded answer that is not legal where it is replayed: nondeterminism / harness bug
-        eprintln!("MACHINERY-FAILURE property=C17 script does not fit the run: {b} (instance {}, script {:?})", inst.label, script);
-        std::process::exit(2);
-    }
-    if s.unflushed_boundary_writes > 0 {
+    let (consumed, accepted_len, accepted_is, flushed_cur, errs, nonprogress, unflushed) = {
+        let s = shared.lock().unwrap();
+        if let Some(b) = &s.bad_script {
+            // a recorded answer that is not legal where it is replayed: nondeterminism / harness bug
+            eprintln!("MACHINERY-FAILURE property=C17 script does not fit the run: {b} (instance {}, script {:?})", inst.label, script);
+            std::process::exit(2);
+        }
+        let want_len = handed_len(inst, enq);
+        (
+            s.consumed,
+            s.accepted.len(),
+            s.accepted.len() == want_len && inst.out_image.starts_with(&s.accepted),
+            s.flushed_at == Some(s.accepted.len()),
+            s.errors_used,
+            s.nonprogress,
+            s.unflushed_boundary_writes,
+        )
+    };
+    if unflushed > 0 {
         l.outcome("obs:next-message-started-before-flush");
     }
     if auto.is_some() && !violated && terminal == 0 {
         // S7: completeness under a fair continuation
-        let want_out = frame::frame(&inst.out_msgs[..enq]);
         if yielded.len() != inst.in_frames.len() && inst.zero_at.is_none() {
-            drop(s);
             viol(l, "completion:inbound-messages-missing", &format!("{} of {} framed messages yielded after the whole stream was delivered", yielded.len(), inst.in_frames.len()), &mut violated);
-        } else if s.accepted != want_out {
-            let (a, w) = (s.accepted.len(), want_out.len());
-            drop(s);
-            viol(l, "completion:outbound-incomplete", &format!("{a} of {w} framed bytes accepted by the socket at quiescence"), &mut violated);
-        } else if !s.accepted.is_empty() && s.flushed_at != Some(s.accepted.len()) {
-            drop(s);
+        } else if !accepted_is {
+            viol(l, "completion:outbound-incomplete", &format!("{accepted_len} of {} framed bytes accepted by the socket at quiescence", handed_len(inst, enq)), &mut violated);
+        } else if accepted_len > 0 && !flushed_cur {
             viol(l, "completion:not-flushed", "all bytes accepted but no successful flush after the last one", &mut violated);
         }
     }
-    let s = shared.lock().unwrap();
     RunOut {
         point,
-        consumed: s.consumed as u32,
-        accepted: s.accepted.len() as u32,
-        flushed_cur: s.flushed_at == Some(s.accepted.len()),
+        consumed: consumed as u32,
+        accepted: accepted_len as u32,
+        flushed_cur,
         enq: enq as u8,
         alive: handle.is_some(),
         yielded: yielded.len() as u8,
-        errs: s.errors_used,
-        nonprogress: s.nonprogress,
+        errs,
+        nonprogress,
         terminal,
         violated,
     }
@@ -857,12 +863,13 @@ fn nontrivial_digest(inst_id: u32, o: &RunOut, c: &Choice, inst: &Inst) -> Optio
     if !hit {
         return None;
     }
-    let cc = match c {
-        Choice::N(n) => *n as u64 + 8,
-        Choice::Pending => 1,
+    let cc = match (o.point, c) {
+        (Point::Read { buf }, Choice::N(n)) => if *n < buf { 2 } else { 3 },
+        (Point::Write { offered, .. }, Choice::N(n)) => if *n < offered { 2 } else { 3 },
+        (_, Choice::Pending) => 1,
         _ => 0,
     };
-    Some((inst_id as u64) << 44 ^ (o.consumed as u64) << 28 ^ (o.accepted as u64) << 12 ^ cc ^ ((o.nonprogress as u64) << 60))
+    Some((inst_id as u64) << 44 ^ (o.consumed as u64) << 24 ^ (o.accepted as u64) << 4 ^ cc)
 }
 
 #[derive(Clone)]
@@ -872,7 +879,6 @@ struct Node {
     out: RunOut,
 }
 
-type Key = (u32, RunOut);
 
 fn guarded_run(inst: &Inst, script: &[Choice], auto: Option<usize>, l: &mut Local) -> Option<RunOut> {
     let f = || run(inst, script, auto, l);
@@ -997,6 +1003,7 @@ fn main() {
     }
 
     let quick = ctx.quick();
+    let only = std::env::var("C17_ONLY").ok();
     let lens: Vec<usize> = if quick { vec![1, 2, 3, 255] } else { vec![1, 2, 3, 255, 256, 300] };
     ctx.set_rule(&format!(
         "E-STATE on the real TcpStream<SimTcp> (from_stream + BufDnsStreamHandle), manual polling: BFS over ALL answer sequences of the \
@@ -1019,6 +1026,9 @@ fn main() {
     let mut grid_stats = serde_json::Map::new();
     let mut all_fix = true;
     let mut do_grid = |name: &str, insts: Vec<Inst>, base: &mut u32| -> vcore::BfsStats {
+        if only.as_deref().map(|o| o != name).unwrap_or(false) {
+            return vcore::BfsStats { fixpoint: true, ..Default::default() }; // debugging aid only
+        }
         let st = run_bfs(&ctx, &insts, *base);
         *base += insts.len() as u32;
         eprintln!("[C17] grid {name}: instances={} states={} transitions={} depth={} fixpoint={} t={:.1}s", insts.len(), st.states, st.transitions, st.depth_completed, st.fixpoint, ctx.elapsed_s());
@@ -1031,9 +1041,12 @@ fn main() {
     let max_err = if quick { 1 } else { 2 };
 
     // read grid
+    // quick: 3-message sequences carry at most one long message
+    let seqs: Vec<Vec<usize>> = sequences(&lens, 3).into_iter().filter(|s| !quick || s.len() < 3 || s.iter().filter(|l| **l >= 255).count() <= 1).collect();
+    ctx.set("message_sequences", json!(seqs.len()));
     let mut insts = vec![];
-    for s in sequences(&lens, 3) {
-        insts.push(Inst::new(format!("read{s:?}"), Wrapper::Plain, inbound_of(&s), &[], max_err, false));
+    for s in &seqs {
+        insts.push(Inst::new(format!("read{s:?}"), Wrapper::Plain, inbound_of(s), &[], max_err, false));
     }
     // zero-length frame alone, between and after messages; a frame announcing more than follows
     // is every truncated stream above (EOF inside a body)
@@ -1049,8 +1062,8 @@ fn main() {
 
     // write grid (the inbound stream is empty: reads can only be answered Pending / EOF / error)
     let mut insts = vec![];
-    for s in sequences(&lens, 3) {
-        insts.push(Inst::new(format!("write{s:?}"), Wrapper::Plain, vec![], &s, max_err, false));
+    for s in &seqs {
+        insts.push(Inst::new(format!("write{s:?}"), Wrapper::Plain, vec![], s, max_err, false));
     }
     do_grid("write", insts, &mut base);
 
@@ -1078,7 +1091,8 @@ fn main() {
                 insts.push(Inst::new(format!("{name} in{i:?} out{o:?}"), w, inbound_of(i), o, 1, true));
             }
         }
-        insts.push(Inst::new(format!("{name} in[255, 2] out[2, 255]"), w, inbound_of(&[255, 2]), &[2, 255], 1, false));
+        insts.push(Inst::new(format!("{name} read[255, 2]"), w, inbound_of(&[255, 2]), &[], 1, false));
+        insts.push(Inst::new(format!("{name} write[2, 255]"), w, vec![], &[2, 255], 1, false));
         do_grid(name, insts, &mut base);
     }
 
@@ -1097,10 +1111,15 @@ fn main() {
             insts.push(Inst::new(format!("x-joint in{i:?} out{o:?}"), Wrapper::Plain, inbound_of(&i), &o, 1, true));
         }
         let results: Mutex<Vec<(usize, usize, u64)>> = Mutex::new(vec![]);
+        ctx.case_timeout_s.store(900, Ordering::Relaxed);
         ctx.par_run(insts.len() as u64, 1, |i, l| {
             let mut keys = HashSet::new();
             let mut runs = 0u64;
+            let t0 = std::time::Instant::now();
             free_dfs(&insts[i as usize], &mut vec![], &mut keys, &mut runs, l);
+            if std::env::var("VERIF_DEBUG").is_ok() {
+                eprintln!("[C17] free run {}: runs={} keys={} {:.1}s", insts[i as usize].label, runs, keys.len(), t0.elapsed().as_secs_f64());
+            }
             results.lock().unwrap().push((i as usize, keys.len(), runs));
         });
         let mut results = results.into_inner().unwrap();
